@@ -81,7 +81,15 @@ def spell_indented():
 def spell_reflink():
     return [("lead=%d" % i, b"a [ref] link\n\n" + LEAD[i] + b"[ref]: http://example.com/\n\n") for i in range(4)]
 
-KINDS = [("para", spell_para, False), ("emph", spell_emph, False), ("atx1", lambda: spell_atx(1), False), ("atx3", lambda: spell_atx(3), False),
+def spell_hardbreak():
+    return [("break=two-spaces", b"line one  \nline two\n\n"), ("break=three-spaces", b"line one   \nline two\n\n"), ("break=backslash", b"line one\\\nline two\n\n")]
+def spell_codespan():
+    return [("ticks=1", b"a `code <x> & y` b\n\n"), ("ticks=2", b"a ``code <x> & y`` b\n\n"), ("ticks=2-padded", b"a `` code <x> & y `` b\n\n")]
+def spell_link():
+    return [("link=inline", b'a [text](http://example.com/ "T") b\n\n'), ("link=reference", b'a [text][ref] b\n\n[ref]: http://example.com/ "T"\n\n'), ("link=reference-case", b'a [text][REF] b\n\n[ref]: http://example.com/ "T"\n\n'),
+            ("link=implicit", b'a [text][] b\n\n[text]: http://example.com/ "T"\n\n'), ("link=shortcut", b'a [text] b\n\n[text]: http://example.com/ "T"\n\n'), ("link=reference-single-quote-title", b"a [text][ref] b\n\n[ref]: http://example.com/ 'T'\n\n"),
+            ("link=reference-angle", b'a [text][ref] b\n\n[ref]: <http://example.com/> "T"\n\n')]
+KINDS = [("hardbreak", spell_hardbreak, False), ("codespan", spell_codespan, False), ("link", spell_link, False), ("para", spell_para, False), ("emph", spell_emph, False), ("atx1", lambda: spell_atx(1), False), ("atx3", lambda: spell_atx(3), False),
          ("setext1", lambda: spell_setext(b"="), False), ("setext2", lambda: spell_setext(b"-"), False), ("bullets", spell_bullets, False), ("enum", spell_enum, False),
          ("hr", spell_hr, False), ("fence", spell_fence, True), ("quote", spell_quote, False), ("indented", spell_indented, False), ("reflink", spell_reflink, False)]
 CONTEXTS = [(b"", b""), (b"before text\n\n", b"after text\n\n"), (b"# Heading before\n\n", b"> quote after\n\n"), (b"* item before\n\n", b"    code after\n\n")]
